@@ -410,6 +410,92 @@ func corrProbe(r *Rng, which string) (line, got string) {
 			}
 		}
 		return sb.String(), got + " | " + valid
+	case "ixlist":
+		// the re-ordering of the active-edge list at the top of a scanbeam: 0-7 non-horizontal edges that
+		// span the beam [topY, botY] (bottoms at or below botY, tops at or above topY, so that topX rounds),
+		// x values on a small grid so that equal x at the top, edges meeting in one point and parallel
+		// edges are frequent; the AEL order is by x at the bottom most of the time, arbitrary otherwise
+		n := r.Range(0, 7)
+		botY, topY := int64(r.Range(8, 12)), int64(r.Range(2, 6))
+		k := []int64{1, 1, 3, 1000, 1 << 20}[r.Intn(5)]
+		botY, topY = botY*k, topY*k
+		type ed struct {
+			e  clip.VIxEdge
+			xb int64
+		}
+		var eds []ed
+		for i := 0; i < n; i++ {
+			xb, xt := int64(r.Range(0, 5))*k, int64(r.Range(0, 5))*k
+			bot, top := P{X: xb, Y: botY}, P{X: xt, Y: topY}
+			if r.Chance(0.4) { // extend beyond the beam: the x at topY / botY is a rounded value
+				m := int64(r.Range(1, 3))
+				top = P{X: xb + (xt-xb)*(m+1) + int64(r.Range(-1, 1)), Y: botY + (topY-botY)*(m+1)}
+			}
+			if r.Chance(0.3) {
+				m := int64(r.Range(1, 2))
+				bot = P{X: xb - (xt-xb)*m + int64(r.Range(-1, 1)), Y: botY - (topY-botY)*m}
+			}
+			eds = append(eds, ed{clip.VIxEdge{Bot: bot, Top: top}, xb})
+		}
+		if r.Chance(0.75) {
+			sort.SliceStable(eds, func(i, j int) bool { return eds[i].xb < eds[j].xb })
+		}
+		es := make([]clip.VIxEdge, n)
+		for i := range eds {
+			es[i] = eds[i].e
+		}
+		var curX []int64
+		var nodes, done [][2]int
+		var pts clip.Path64
+		var sel, ael []int
+		fault := safeCall(func() { curX, nodes, pts, sel, done, ael = clip.VDoIntersections(es, botY, topY) })
+		var sb strings.Builder
+		fmt.Fprintf(&sb, "model ixlist %d %d", topY, n)
+		for _, e := range es {
+			fmt.Fprintf(&sb, " %d %d %d %d", e.Bot.X, e.Bot.Y, e.Top.X, e.Top.Y)
+		}
+		sb.WriteString(" " + showPath(pts))
+		if fault != "" {
+			return sb.String(), "fault"
+		}
+		showN := func(l [][2]int) string {
+			ss := make([]string, len(l))
+			for i, a := range l {
+				ss[i] = fmt.Sprintf("%d-%d", a[0], a[1])
+			}
+			return strings.Join(ss, " ")
+		}
+		showL := func(l []int) string {
+			ss := make([]string, len(l))
+			for i, a := range l {
+				ss[i] = fmt.Sprint(a)
+			}
+			return strings.Join(ss, " ")
+		}
+		// the order among nodes with equal points is left to sort.Slice: compare the processed nodes as
+		// a sorted list unless all points differ
+		distinct := true
+		seen := map[P]bool{}
+		for _, q := range pts {
+			if seen[q] {
+				distinct = false
+			}
+			seen[q] = true
+		}
+		if !distinct {
+			done = append([][2]int(nil), done...)
+			sort.Slice(done, func(i, j int) bool {
+				if done[i][0] != done[j][0] {
+					return done[i][0] < done[j][0]
+				}
+				return done[i][1] < done[j][1]
+			})
+		}
+		xs := make([]string, len(curX))
+		for i, x := range curX {
+			xs[i] = fmt.Sprint(x)
+		}
+		return sb.String(), fmt.Sprintf("x %s | n %s | sel %s | done %s | ael %s", strings.Join(xs, " "), showN(nodes), showL(sel), showN(done), showL(ael))
 	case "offraw":
 		// the raw ring that doGroupOffset appends for one closed path (before the union): Miter / Square /
 		// Bevel joins, deltas of both signs from tiny to large, miter limits, paths with duplicates,
@@ -826,7 +912,7 @@ func corrProbe(r *Rng, which string) (line, got string) {
 }
 
 var genProbes = []string{"triSign", "multiplyUInt64", "productsAreEqual", "isCollinear", "CrossProduct", "dotProduct64", "segsIntersect", "checkPrecision", "IsOdd", "ptsReallyClose", "isContributingClosed", "isContributingOpen", "getLocation", "getEdgesForPt", "isHeadingClockwise", "headingClockwise", "getAdjacentLocation", "areOpposites", "hasHorzOverlap", "hasVertOverlap", "isClockwise", "getSegmentIntersection", "getSegmentIntersectPt", "rectMethods", "getBounds", "GetBounds64", "Area64", "PerpendicDistFromLineSqr64", "PerpendicDistFromLineSqrD", "areaTriangle"}
-var modelProbes = []string{"offplan", "rectpoly", "rectline", "pipop", "scan", "lowest", "trim", "simp64", "pip", "strip", "mink", "vertex", "clean", "build", "tree", "tree", "areaop", "contain", "aelins", "offraw", "offopen", "split", "buildpaths", "split", "buildpaths"}
+var modelProbes = []string{"offplan", "rectpoly", "rectline", "pipop", "scan", "lowest", "trim", "simp64", "pip", "strip", "mink", "vertex", "clean", "build", "tree", "tree", "areaop", "contain", "aelins", "ixlist", "offraw", "offopen", "split", "buildpaths", "split", "buildpaths"}
 
 func corrStage(name string, probes []string, quick, thorough int, rule string) {
 	stages[name] = func(ctx *Ctx, cnt func(q, t int) int, replay string) Result {
